@@ -386,7 +386,7 @@ def fmVerdict (toks : List String) (real : Op) : Option String :=
       | some f2, none, some (a, s) => NpuOpSpec.footprintMsgs "ifm2" f2 a s
       | _, _, _ => []
     some (NpuOpSpec.verdict (NpuOpSpec.footprintMsgs "ifm" op.ifm iaA iaS ++ m2 ++ NpuOpSpec.footprintMsgs "ofm" op.ofm oaA oaS ++
-          NpuOpSpec.ofmInjectiveMsgs op.ofm))
+          NpuOpSpec.ofmInjectiveMsgs op.ofm ++ NpuOpSpec.windowMsgs op))
   | _, _ => some "-"
 
 def handle : List String → Option String
